@@ -22,7 +22,7 @@
      a Break that escapes every loop is Stuck.
    * StructInit: structs are immutable values; the reference to a new struct is an opaque function of its type
      and fields (two structs with the same fields are not distinguished: the fragment has no comparison of
-     references).  `struct_world` says that a field load from such a reference gives the field back.
+     references).  `struct_honest` says that a field load from the references of given structs gives the field back.
    * LateInitDeclaration binds the name to 0, LateInitAssignment re-binds it (the environment is flat, so an
      assignment inside a branch is seen after it).
    Observable behaviour of a run = outcome: return value + call trace, or the kind of abnormal end + trace. *)
@@ -183,9 +183,12 @@ Definition sem (strict : mode) (w : world) (f : func) (args : list Z) (fuel : na
 Definition refines (w : world) (f' f : func) : Prop :=
   forall args fuel v tr, sem All w f args fuel = Done v tr -> sem Wrap w f' args fuel = Done v tr.
 
-(* a field load from the reference to a new struct gives the field back (at every load type) *)
-Definition struct_world (w : world) : Prop :=
-  forall tn vs t i v, nth_error vs (N.to_nat i) = Some v ->
+(* a field load from the reference to a struct with these fields gives the field back (at every load type), for
+   the structs of H.  It cannot hold for ALL structs at once (references are 32-bit words, there are more lists
+   of fields than references); SemStruct.v relates H to the structs a run actually makes and shows that such
+   worlds exist for every finite H. *)
+Definition struct_honest (w : world) (H : N -> list Z -> Prop) : Prop :=
+  forall tn vs t i v, H tn vs -> nth_error vs (N.to_nat i) = Some v ->
     wrap32 (w_prim w (PIdx t i) (wrap32 (w_struct w tn vs))) = wrap32 v.
 
 (* renaming of variables (used by the alpha-invariance theorem) *)
